@@ -241,25 +241,71 @@ def dispatcher(ctx, base_charsets):
         if out[0] in HANDLERS:
             # does the call's result rebind the current section?
             rebinding.setdefault(out[0], set()).add(
-                _rebinds_section(fn, out[0]))
+                _rebinds_section(fn, out[0], p))
         prev = outcome_lang.get(out)
         outcome_lang[out] = lang if prev is None else (prev | lang)
     return fn, outcome_lang, index_sites, rebinding, n_paths, paths, ab
 
 
-def _rebinds_section(fn, handler):
-    """True iff  section = self.<handler>(section, ...)  in parse()."""
-    for n in ast.walk(fn.node):
-        if isinstance(n, ast.Call) and isinstance(n.func, ast.Attribute) \
-                and n.func.attr == handler:
-            p = n._parent
-            if isinstance(p, ast.Assign) and len(p.targets) == 1 \
-                    and isinstance(p.targets[0], ast.Name) and n.args \
-                    and isinstance(n.args[0], ast.Name) \
-                    and n.args[0].id == p.targets[0].id:
-                return True
-            return False
+def _rebinds_section(fn, handler, path):
+    """True iff, on this path, the current-section variable of parse() holds
+    the result of self.<handler>(...) after the line was handled; False iff it
+    still holds what it held before (decided on the interpreted path, so a
+    dispatcher split into helpers is seen through)."""
+    if len(fn.params) < 2 or path.env is None:
+        return None
+    t = path.env.get(fn.params[1])
+    if t == ("param", 0):
+        return False
+    if t is not None and t[0] == "call" and t[1][0] == "attr" \
+            and t[1][1] == ("self",) and t[1][2] == handler:
+        return True
     return None
+
+
+def section_threading(ctx):
+    """How parse() threads the current section through two consecutive
+    lines (the loop is interpreted for two iterations; helpers unknown to the
+    rules are seen through).  Returns a list of
+      (first handler, second handler, first argument of the second call,
+       expected term, ok)
+    where the expected term is the result of the first call when the first
+    handler is an opener/closer and parse()'s own section parameter
+    otherwise."""
+    m, P = ctx.model, ctx.program
+    fn = m.fn(PC + ".parse")
+    paths = A.Interp(fn, P, loop_policy=lambda n: "twice").paths()
+    rows = []
+    for p in paths:
+        first = second = None
+        seen_second = False
+        for e in p.effects:
+            if e[0] == "loop-second":
+                seen_second = True
+                continue
+            if e[0] != "call":
+                continue
+            t = e[1]
+            if t[1][0] == "attr" and t[1][1] == ("self",) \
+                    and t[1][2] in HANDLERS:
+                if not seen_second and first is None:
+                    first = t
+                elif seen_second and second is None:
+                    second = t
+        if second is None or not second[2]:
+            continue
+        if first is None:
+            expected = ("param", 0)
+            fname = "skip"
+        elif first[1][2] in ("start_section", "end_section"):
+            expected = first
+            fname = first[1][2]
+        else:
+            expected = ("param", 0)
+            fname = first[1][2]
+        rows.append((fname, second[1][2], second[2][0], expected,
+                     second[2][0] == expected))
+    return fn, rows
 
 
 def run(ctx):
